@@ -136,10 +136,26 @@ func (d *DB) schema() zenodb.Schema {
 			RetentionPeriod: t.Retention,
 			PartitionBy:     append([]string(nil), t.PartitionBy...),
 			MaxFlushLatency: t.MaxFlush,
-			MinFlushLatency: t.MinFlush,
+			MinFlushLatency: minFlush(t.MinFlush),
 		}
 	}
 	return s
+}
+
+// minFlush: after any flush zenodb re-arms its flush timer to 10x the duration
+// of that flush (a few ms), clamped to [MinFlushLatency, MaxFlushLatency], so
+// with the default MinFlushLatency of 0 a timed flush follows every forced one
+// within milliseconds. Timed flushes are explored as the forced-flush actor
+// message (DESIGN.md §2.3); unless a check asks for real timers (MinFlush < 0)
+// they are pushed out of the way so that schedules are deterministic.
+func minFlush(d time.Duration) time.Duration {
+	if d == 0 {
+		return time.Hour
+	}
+	if d < 0 {
+		return 0
+	}
+	return d
 }
 
 // Open creates the data directory (if needed) and opens the database on it.
